@@ -261,6 +261,20 @@ func StructuralInvariant(c *girc.Client) string {
 	return ""
 }
 
+// PermsCovered: every channel listed for a user has an entry in its permission map
+// (C05_perms_cover_partial). Returns "" or the first gap.
+func PermsCovered(c *girc.Client) string {
+	for _, u := range c.Users() {
+		keys, _, _ := u.Perms.VerifPermsMap()
+		for _, cn := range u.ChannelList {
+			if !containsStr(keys, cn) {
+				return "user " + u.Nick + " lists " + strconv.Quote(cn) + " but has no permission entry for it"
+			}
+		}
+	}
+	return ""
+}
+
 func containsStr(l []string, x string) bool {
 	for _, y := range l {
 		if y == x {
@@ -330,6 +344,8 @@ func RunHistory(nick, user string, evs []Ev) (obs, oracle string, ss *StateSessi
 	obs = DumpState(ss.C) + ";w=" + Written(ss.Since(mark), sentinel)
 	if m := StructuralInvariant(ss.C); m != "" {
 		oracle = "structure: " + m
+	} else if m := PermsCovered(ss.C); m != "" {
+		oracle = "perms: " + m
 	}
 	return obs, oracle, ss
 }
@@ -590,6 +606,8 @@ func RunConnected(nick, user string, evs []Ev, opt ConnOptions) (obs, oracle str
 		obs = DumpState(ss.C) + ";w=" + WrittenNoSentinels(ss.Since(mark))
 		if m := StructuralInvariant(ss.C); m != "" {
 			oracle = "structure: " + m
+		} else if m := PermsCovered(ss.C); m != "" {
+			oracle = "perms: " + m
 		}
 		return obs, oracle
 	}
